@@ -5,6 +5,7 @@
 use crate::dirgen::{open_index, DumpEntry};
 use jubako as jbk;
 use jbk::reader::Range;
+use jbk::reader::EntryTrait;
 use serde::{Deserialize, Serialize};
 use std::collections::BTreeMap;
 use std::io::Read;
@@ -83,6 +84,12 @@ pub struct FDump {
     /// live phase only: did anything the container serves (entries, contents, counts) change
     #[serde(default)]
     pub live_changed: Option<bool>,
+    /// "file|kind" -> what ContentPack::new / DirectoryPack::new / ManifestPack::new say about the
+    /// file handed over as a WHOLE-FILE reader (the way the repository's own tests and custom
+    /// locators open loose pack files; no cut to the declared pack size happens first):
+    /// a structural digest (counts, sizes, locations - never content bytes) or the error
+    #[serde(default)]
+    pub bare: BTreeMap<String, Acc<String>>,
 }
 
 #[derive(Serialize, Deserialize, Debug, Clone)]
@@ -101,6 +108,73 @@ pub struct Job {
     /// C04 live phase: (file, position, xor mask) altered in place between two dumps of ONE container
     #[serde(default)]
     pub live: Option<(String, u64, u8)>,
+}
+
+/// the three pack kinds opened directly on a whole-file reader
+fn dump_bare(path: &Path, index_names: &[String], out: &mut BTreeMap<String, Acc<String>>, f: &str) {
+    let rd: jbk::Reader = match jbk::FileSource::open(path) {
+        Ok(s) => s.into(),
+        Err(e) => {
+            out.insert(format!("{f}|open"), Acc::Err(e.to_string().chars().take(200).collect()));
+            return;
+        }
+    };
+    let content = (|| -> jbk::Result<String> {
+        let cp = jbk::reader::ContentPack::new(rd.clone())?;
+        let n = cp.get_content_count().into_u32();
+        let mut d = format!("contents={n}");
+        for i in 0..n.min(600) {
+            match cp.get_content(jbk::ContentIdx::from(i))? {
+                Some(r) => {
+                    // stream it (the bytes themselves are judged through the container, not here)
+                    let mut v = Vec::new();
+                    let m = r.stream().take(64 << 20).read_to_end(&mut v).map_err(jbk::Error::from)?;
+                    d.push_str(&format!(" {}:{m}", r.size().into_u64()));
+                }
+                None => d.push_str(" none"),
+            }
+        }
+        for past in [n, n.saturating_add(1), u32::MAX] {
+            d.push_str(if cp.get_content(jbk::ContentIdx::from(past))?.is_some() { " past:some" } else { " past:none" });
+        }
+        Ok(d)
+    })();
+    out.insert(format!("{f}|content"), acc(content));
+    let directory = (|| -> jbk::Result<String> {
+        let dp = std::sync::Arc::new(jbk::reader::DirectoryPack::new(rd.clone())?);
+        let estorage = dp.create_entry_storage();
+        let vstorage = dp.create_value_storage();
+        let mut d = String::from("indexes:");
+        for name in index_names {
+            match dp.get_index_from_name(name)? {
+                None => d.push_str(&format!(" {name}=absent")),
+                Some(ix) => {
+                    d.push_str(&format!(" {name}=({},{},{})", ix.get_store_id().into_u32(), ix.offset().into_u32(), ix.count().into_u32()));
+                    let store = ix.get_store(&estorage)?;
+                    let b = jbk::reader::builder::AnyBuilder::new(store, vstorage.as_ref())?;
+                    let n = ix.count().into_u32();
+                    for i in (0..n).step_by((n as usize / 50).max(1)) {
+                        if let Some(e) = ix.get_entry(&b, i.into())? {
+                            d.push_str(&format!("[v{:?}]", e.get_variant_id()?.map(|v| v.into_u8())));
+                        }
+                    }
+                }
+            }
+        }
+        Ok(d)
+    })();
+    out.insert(format!("{f}|directory"), acc(directory));
+    let manifest = (|| -> jbk::Result<String> {
+        let m = jbk::reader::ManifestPack::new(rd.clone())?;
+        let mut d = format!("packs={}", m.pack_count().into_u16());
+        let dpi = m.get_directory_pack_info();
+        d.push_str(&format!(" d:{}:{}:{}:{:?}", dpi.uuid, dpi.pack_id.into_u16(), dpi.pack_size.into_u64(), dpi.pack_location.as_str()));
+        for pi in m.get_pack_infos() {
+            d.push_str(&format!(" {}:{}:{}:{:?}", pi.uuid, pi.pack_id.into_u16(), pi.pack_size.into_u64(), pi.pack_location.as_str()));
+        }
+        Ok(d)
+    })();
+    out.insert(format!("{f}|manifest"), acc(manifest));
 }
 
 fn dump_manifest(main: &Path) -> Acc<Vec<FPackInfo>> {
@@ -299,6 +373,9 @@ pub fn run_job(job: &Job) -> FDump {
     }
     if job.full {
         d.manifest = Some(dump_manifest(&dir.join(&job.main)));
+        for f in &job.files {
+            dump_bare(&dir.join(f), &job.index_names, &mut d.bare, f);
+        }
     }
     let c = match jbk::reader::Container::new(dir.join(&job.main)) {
         Ok(c) => {
